@@ -18,6 +18,7 @@ import (
 	"sync"
 	"time"
 
+	"github.com/mattn/go-runewidth"
 	"github.com/vbauerster/mpb/v8"
 	"github.com/vbauerster/mpb/v8/decor"
 )
@@ -132,9 +133,18 @@ func runOptFamily(c *runCtx) error {
 			}
 			bo = append(bo, mpb.BarFillerTrim(), mpb.PrependDecorators(decor.Name("N|")))
 			total := int64(5 + r.intn(50))
+			// one case in three: a bar without a total (current runs ahead of it), completed only by SetTotal(-1, true)
+			noTotal := r.chance(1, 3)
+			if noTotal {
+				total = 0
+			}
 			b := o.p.AddBar(total, bo...)
-			cases.WriteString(fmt.Sprintf("F %d %d %d %d\n", k, which, ending, width))
-			b.IncrInt64(total / 2)
+			cases.WriteString(fmt.Sprintf("F %d %d %d %d %v\n", k, which, ending, width, noTotal))
+			if noTotal {
+				b.IncrInt64(int64(1 + r.intn(9)))
+			} else {
+				b.IncrInt64(total / 2)
+			}
 			if err := o.frame(); err != nil {
 				hangErr = fmt.Errorf("case %d: %v", k, err)
 				break
@@ -148,8 +158,16 @@ func runOptFamily(c *runCtx) error {
 			}
 			switch ending {
 			case 0:
-				b.IncrInt64(total)
+				if noTotal {
+					b.SetTotal(-1, true)
+				} else {
+					b.IncrInt64(total)
+				}
 			case 1:
+				if !noTotal && r.bool() {
+					// current reaches a total that does not trigger completion, then the bar is aborted
+					b.SetTotal(total, false)
+				}
 				b.Abort(false)
 			}
 			if err := o.frame(); err != nil {
@@ -282,17 +300,33 @@ func runOptFamily(c *runCtx) error {
 			name = "spinner"
 			width := 10 + r.intn(20)
 			o := newOptCtl(width)
-			b := o.p.AddSpinner(10, mpb.BarFillerTrim())
-			cases.WriteString(fmt.Sprintf("S %d %d\n", k, width))
 			frames := []string{"⠋", "⠙", "⠹", "⠸", "⠼", "⠴", "⠦", "⠧", "⠇", "⠏"}
-			for i := 0; i < 3; i++ {
+			var b *mpb.Bar
+			custom := r.intn(3)
+			switch custom {
+			case 1:
+				frames = []string{".", "..", "...", "...."}
+			case 2:
+				frames = []string{"a", "世界", "bcd"}
+			}
+			if custom == 0 {
+				b = o.p.AddSpinner(10, mpb.BarFillerTrim())
+			} else {
+				b = o.p.MustAdd(10, mpb.SpinnerStyle(frames...).Build(), mpb.BarFillerTrim())
+			}
+			cases.WriteString(fmt.Sprintf("S %d %d %d\n", k, width, custom))
+			for i := 0; i < len(frames)+1; i++ {
 				if err := o.frame(); err != nil {
 					hangErr = fmt.Errorf("case %d: %v", k, err)
 					break
 				}
 				rows := o.buf.lastRows()
 				if len(rows) != 1 || strings.TrimSpace(rows[0]) != frames[i%len(frames)] {
-					fail("AddSpinner: frame %d shows %q, want the default spinner frame %q", i, rows, frames[i%len(frames)])
+					fail("spinner: frame %d shows %q, want the spinner frame %q", i, rows, frames[i%len(frames)])
+					break
+				}
+				if w := runewidth.StringWidth(rows[0]); w > width {
+					fail("spinner: the row %q is %d columns wide in a container of width %d", rows[0], w, width)
 					break
 				}
 			}
